@@ -360,15 +360,17 @@ def run_job(job, exe, rundir, idx, default_prop):
                                               seed=job.seed, job=job_desc(job, frm, end - frm)))
                     else:
                         res.inconclusive.append('TSan report without a tulz frame (harness bug?): ' + excerpt[:400])
-        if stats and rc in (0, 23):
+        if stats and not stats[-1].get('aborted') and not (job.valgrind and rc == 77):
+            # the harness went through all its cases; a non-zero status now can only come from a report
+            # printed at exit (LeakSanitizer aborts the process when abort_on_error is set)
             res.stats += stats
             res.cases_done += end - frm
-            sans = parse_sanitizer(errtxt)   # LeakSanitizer reports at exit
+            sans = parse_sanitizer(errtxt)
             for rule, site, excerpt in sans:
                 res.viols.append(dict(prop=default_prop, rule=rule, site=site, detail=excerpt[:3000], case=-1,
                                       seed=job.seed, job=job_desc(job, frm, end - frm)))
-            if rc == 23 and not sans:
-                res.inconclusive.append('exit 23 without a parsable leak report: ' + errtxt[-500:])
+            if rc != 0 and not sans:
+                res.inconclusive.append('%s: exit status %r after the final statistics without a parsable report: %s' % (job.label, rc, errtxt[-500:]))
             break
         if job.valgrind and rc == 77:
             res.stats += stats
